@@ -113,10 +113,17 @@ def build_cases(combos, bnd, rng, tier):
             cn = 'c%d%s' % (uid[0], SUF[rk])
             consts.append({'n': cn, 't': rk, 'pi': 0, 'e': e})
             stmts.append({'k': 'print', 'items': [{'k': 'e', 'e': {'k': 'cst', 'n': cn, 't': rk}}]})
-        if rk in 'IL' and 1 <= c['res'][1] <= 12 or (rk in 'SD' and c['res'][2] >= -1 and 1 <= c['res'][1] * (2 ** c['res'][2] if c['res'][2] >= 0 else 0.5) <= 12 and False):
+        fval = (c['res'][1] * 2.0 ** c['res'][2]) if rk in 'SD' and -8 <= c['res'][2] <= 4 else None
+        if (rk in 'IL' and 1 <= c['res'][1] <= 12) or (fval is not None and 1 <= fval <= 12):
+            # a static array bound: the compiler lays the frame out with ITS value of the bound; the element at the
+            # run-time upper bound must not be the variable declared next
             an = 'a%d%%' % uid[0]
+            nx = {'k': 'lv', 'n': 'n%d%%' % uid[0], 'ix': [], 'fl': [], 't': 'I'}
+            ub = {'k': 'fn', 'n': 'ubound', 't': 'L', 'arr': an, 'rank': 1, 'args': [{'k': 'num', 't': 'I', 'v': 1}]}
             stmts.append({'k': 'dim', 'n': an, 'dims': [{'lo': {'k': 'num', 't': 'I', 'v': 0}, 'hi': {'k': 'par', 'a': e}, 'haslo': False}], 'rec': None, 't': 'I'})
-            stmts.append({'k': 'print', 'items': [{'k': 'e', 'e': {'k': 'fn', 'n': 'ubound', 't': 'L', 'arr': an, 'rank': 1, 'args': [{'k': 'num', 't': 'I', 'v': 1}]}}]})
+            stmts.append({'k': 'let', 'lv': nx, 'e': {'k': 'num', 't': 'I', 'v': 5}})
+            stmts.append({'k': 'let', 'lv': {'k': 'lv', 'n': an, 'ix': [ub], 'fl': [], 't': 'I'}, 'e': {'k': 'num', 't': 'I', 'v': 77}})
+            stmts.append({'k': 'print', 'items': [{'k': 'e', 'e': ub}, {'k': 'sep', 's': ';'}, {'k': 'e', 'e': nx}]})
         if rk in ('ERR', 'OOM'):
             err_progs.append(([{'k': 'print', 'items': [{'k': 'e', 'e': {'k': 'str', 'b': S('go')}}]}] + stmts, consts))
         else:
